@@ -27,9 +27,15 @@ Monitors / oracle (rv/ref/c35_usb3link.py, written from USB 3.2 7.2.2; bit-seria
          `new_command` strobes are attributed to the latest candidate presented before the strobe (latency 1 or 2
          cycles both fit); a well-formed candidate needs exactly one strobe with command / class / type / subtype equal
          to the fields of the word, any other candidate none.  loop additionally: reported sequence == requested sequence.
+  Start framing: a command word counts only after a start word; words that differ from SLC SLC SLC EPF in two or more
+         symbols (value or K flag: the right bytes with no / two missing K flags, two other K-symbols, idle, data) are not
+         start words and the well-formed word after them must not be reported (judged, 8 of each per case).
 Not judged: latency of `new_command` beyond "after the word, before the next candidate's strobe"; the detector's outputs
-  outside strobe cycles; a start word with exactly one wrong symbol (USB 3.2 lets a receiver tolerate one symbol error in
-  framing: generated, candidate marked optional); a start word directly followed by another start word (not generated
+  outside strobe cycles; a start word with exactly one wrong symbol: the statement only names
+  "copies differ / CRC5 wrong / control symbols present" as reject reasons and says nothing about damaged framing, while
+  USB 3.2 builds the framing ordered sets so that a receiver may still recognise them with one corrupted symbol -- an
+  exact-match detector (luna today) and a one-error-tolerant one are both correct, so the candidate is optional (a mutant
+  that relaxes the start compare by ONE lane is therefore not a violation; by two lanes it is caught); a start word directly followed by another start word (not generated
   by the partner; if it happens the second one is an optional start); `generate` while busy (ignored by contract).
 Deviation from DESIGN section 7: none in substance; the three DUT arrangements share one elaboration per case.
 """
@@ -48,7 +54,8 @@ REQUIRED_BINS = ["gen_stall_on_start_word", "gen_stall_on_command_word", "gen_no
                  "loop_gap_inside_command", "loop_gap_before_command",
                  "det_all_256_values", "det_gap_inside_command", "det_gap_lookalike_command", "det_gap_lookalike_start",
                  "det_flip_copy0", "det_flip_copy1", "det_flip_both", "det_wrong_crc_random", "det_crc_of_other_value",
-                 "det_ctrl_each_lane", "det_ctrl_all_patterns", "det_no_start_idle", "det_no_start_invalid_start", "det_start_idle_word",
+                 "det_ctrl_each_lane", "det_ctrl_all_patterns", "det_no_start_idle", "det_no_start_invalid_start", "det_start_bytes_without_ctrl",
+                 "det_start_two_ctrl_flags_clear", "det_start_two_symbols_other_k", "det_start_idle_word",
                  "det_rejected_then_good_back_to_back", "det_good_back_to_back", "det_reserved_nonzero_good", "det_near_miss_start",
                  "det_long_gap"]
 REQUIRED_EVENTS = ["gen_commands_requested", "gen_words_transferred", "gen_done_strobes", "loop_commands_reported",
@@ -267,6 +274,11 @@ def build_partner_stream(rng, res):
         items.append(("randword", c, s))
         items.append(("othercrc", c, s))
         items.append(("nostart", c, s, rng.choice(["idle", "data", "invalid_start", "far_start"])))
+    for _ in range(8):
+        c, s = rng.choice(values)
+        items.append(("nostart", c, s, "start_bytes_as_data"))      # FE FE FE F7 with all ctrl flags clear (payload data)
+        items.append(("nostart", c, s, "start_two_ctrl_clear"))     # right bytes, two lanes not flagged as K-symbols
+        items.append(("nostart", c, s, "start_two_values_wrong"))   # all four K flags, two other K-symbols
     for _ in range(6):
         c, s = rng.choice(values)
         items.append(("start_idle", c, s))
@@ -342,6 +354,20 @@ def build_partner_stream(rng, res):
                 words.append((1, 0, 0))
                 words.append((0,) + L.LCSTART)
                 res.bin("det_no_start_invalid_start")
+            elif how == "start_bytes_as_data":
+                words.append((1, L.LCSTART[0], 0))
+                res.bin("det_start_bytes_without_ctrl")
+            elif how == "start_two_ctrl_clear":
+                i, j = rng.sample(range(4), 2)
+                words.append((1, L.LCSTART[0], 0xF & ~((1 << i) | (1 << j))))
+                res.bin("det_start_two_ctrl_flags_clear")
+            elif how == "start_two_values_wrong":
+                syms = L.unpack_word(*L.LCSTART)
+                i, j = rng.sample(range(4), 2)
+                syms[i] = L.K(rng.choice([L.SHP, L.END, L.SDP, L.COM]))
+                syms[j] = L.K(rng.choice([L.SHP, L.END, L.SDP, L.COM]))
+                words.append((1,) + L.pack_word(syms))
+                res.bin("det_start_two_symbols_other_k")
             else:
                 # two symbols wrong: never a start word
                 syms = L.unpack_word(*L.LCSTART)
